@@ -179,7 +179,13 @@ def run(ctx):
     # limit -> take, sort
     takes = [t for b, t in f.calls() if (t.get("f") or "").endswith("Iterator::take")]
     held = bool(takes) and any(vf.has_field(vf.origins(f, t["a"][1]), Q, "limit") for t in takes)
-    run.instance(R1, {"criterion": "limit", "obligation": "truncation by take(limit)"}, held=held)
+    if held:
+        # the limit cuts the *final* order: neither the sort nor the Desc reversal may come after it
+        tb = [b for b, t in f.calls() if (t.get("f") or "").endswith("Iterator::take")]
+        after = cfg.reach(f, starts=[f.bbs[b]["t"]["t"] for b in tb if f.bbs[b]["t"]["t"] is not None])
+        late = [b for b, t in f.calls() if b in after and ((t.get("f") or "").endswith("::reverse") or "sort_by" in (t.get("f") or ""))]
+        held = not late
+    run.instance(R1, {"criterion": "limit", "obligation": "truncation by take(limit), applied after sorting and reversing"}, held=held)
     if not held:
         run.finding(Finding(R1, ADV, "limit is not applied with take(limit)", site=f.loc()))
     rev = [b for b, t in f.calls() if (t.get("f") or "").endswith("::reverse")]
